@@ -29,7 +29,7 @@ fn gen(r: &mut Rng, _cfg: &RunCfg) -> Case {
     if r.chance(1, 5) {
         text = format!("{}{}{}", *r.pick(&[" ", "  ", "   "]), text, *r.pick(&[" ", "  ", "\n", " \n "]));
     }
-    let dw = textwrap::core::display_width(&text);
+    let dw = crate::oracle::width::ref_width(&text);
     let w = opts::width(r, text.len(), dw);
     Case::new("inplace").text(text).num(w)
 }
